@@ -41,6 +41,7 @@ import Proofs.FitOpen
 import Proofs.FitNoRaise
 import Proofs.FitRaiseFree
 import Proofs.FitStable
+import Proofs.FitCutGuard
 import Proofs.FitNorm
 import Proofs.JoinSuccess
 import Proofs.Placement
@@ -2634,8 +2635,8 @@ opened.  So the **static** guard on the request slice asks the condition of ever
 `Slice.openPrefixOk` = `fillableKids` (every non-leaf node, every suffix of its children can be filled in front of) ∧
 `endChainOk` (along the last-child chain every suffix of the children is a matchable beginning).  It is kept by everything the
 loop does to the unplaced content and implies `sitesOk` whatever the depths (`openPrefixOk_invariant`).  Which slices satisfy
-it: every slice whose non-leaf nodes have content the automaton accepts from the start state whatever is cut off in front
-(`x*`, `x+`, `(x | y)*`, `title? block*`) — in the bundled family the slices that do not put a `list_item(paragraph, list…)`, a
+it: every slice cut from a valid document whose non-leaf nodes have content the automaton accepts from the start state
+whatever is cut off in front (`x*`, `x+`, `(x | y)*`, `title? block*`: `openPrefixOk_of_cut`) — in the bundled family the slices that do not put a `list_item(paragraph, list…)`, a
 `block(a, b)` (content `a b`), … on the last-child chain; the tie (op `fitRaise`, harness/rangeplan.py) counts them: the
 hypotheses of `fit_no_raise` hold on about nine requests in ten, among them some 3000 slices per run that are open and go
 through the Fitter.  For the third place: `Slice.stableOk` (static; `stableOk_keeps_wf`) or the run hypothesis `unplacedWfWhile`
@@ -2743,6 +2744,38 @@ theorem fit_no_raise (S : Schema) (hdet : detB S = true) (hfill : S.fillersOKB =
     ∃ r, replaceStep S doc f t sl = .ok r :=
   fit_no_raise_while S hdet hfill hwrap hlab hts hcl doc f t sl hv hattrs htop hft ht
     (termGuard_of_stable S sl hwf hst) hg (unplacedWfWhile_of_stable S doc f t sl hwf hst)
+
+/-- **`openPrefixOk_of_cut`** — which ordinary slices satisfy the guard: **every slice cut from a valid document**
+    (`src.slice a b`, any open depths), the document in normal form (no empty text nodes), provided its non-leaf nodes have
+    *suffix-closed* content (`Schema.homogKids`; `Schema.suffixClosedB`: every edge of every state of the type's automaton is an
+    edge of the start state with the same target — `x*`, `x+`, `(x | y)*`, `title? block*`; not `paragraph block*`, `a b`).
+    `Fragment.cut` returns a contiguous run of the children with the two outer ones cut themselves
+    (`fcutLoop_types_infix`), so the children of every node of the slice are by type an infix of an accepted sequence, and
+    with suffix-closed content every suffix of an infix is matchable from the start state (Proofs/FitCutGuard.lean). -/
+theorem openPrefixOk_of_cut (S : Schema) (src : Node) (a b : Nat) (sl : Slice) (hsrc : C01.Valid S src)
+    (hn : fnormKids src.kids = true) (hh : S.homogKids src.kids = true) (hcut : src.slice a b = .ok sl) :
+    sl.openPrefixOk S = true :=
+  slice_openPrefixOk S src a b sl hsrc hn hh hcut
+
+/-- … in particular, in a schema all of whose node types have suffix-closed content (`Schema.homogSchemaB`: the
+    bundled `basic` schema), **every** slice cut from a valid document in normal form satisfies the guard -/
+theorem openPrefixOk_of_cut_homogSchema (S : Schema) (hS : S.homogSchemaB = true) (src : Node) (a b : Nat) (sl : Slice)
+    (hsrc : C01.Valid S src) (hn : fnormKids src.kids = true) (hcut : src.slice a b = .ok sl) :
+    sl.openPrefixOk S = true :=
+  slice_openPrefixOk S src a b sl hsrc hn (homogKids_of_schema S hS _ (checkNode_kids hsrc)) hcut
+
+/-- **`fit_no_raise_cut`** — the no-raise theorem for the slices the property quantifies over, in a schema with suffix-closed
+    content: for every slice cut from a valid document in normal form that is stable (`Slice.stableOk`), `replace_step`
+    returns on every range of a valid document -/
+theorem fit_no_raise_cut (S : Schema) (hdet : detB S = true) (hfill : S.fillersOKB = true) (hwrap : S.wrapOKB = true)
+    (hlab : S.labelsOKB = true) (hts : textStableC S = true) (hcl : S.closableB = true) (hS : S.homogSchemaB = true)
+    (doc : Node) (f t : Nat) (src : Node) (a b : Nat) (sl : Slice) (hsrc : C01.Valid S src)
+    (hn : fnormKids src.kids = true) (hcut : src.slice a b = .ok sl) (hst : sl.stableOk S = true)
+    (hv : C01.Valid S doc) (hattrs : S.nodeAttrsOK doc = true) (htop : S.isTextblockO (S.tyOf doc) = false)
+    (hft : f ≤ t) (ht : t ≤ fsize doc.kids) :
+    ∃ r, replaceStep S doc f t sl = .ok r :=
+  fit_no_raise S hdet hfill hwrap hlab hts hcl doc f t sl hv hattrs htop hft ht (sliceKids_wf _ _ _ _ hcut)
+    (openPrefixOk_of_cut_homogSchema S hS src a b sl hsrc hn hcut) hst
 
 /-- **the guard is false on the finding's input, and the model raises there** (C11-fitter-partial-node): schema `block: "a b"`,
     `doc(block(a("xy"), b("zw")))`, the slice `<block(a("y"), b("z"))>(2,2)` (cut with the parents kept) inserted at
